@@ -58,7 +58,11 @@ def main(argv):
             if v is not None:
                 print(json.dumps(v, indent=1, default=str)[:6000])
                 if v["property"] == prop:
-                    bad += 1
+                    k = engine.match_known(prop, v.get("sig", {}), engine.load_known())
+                    if k is not None:
+                        print("KNOWN-FINDING: property=%s %s (%s)" % (prop, k["what"], k["id"]))
+                    else:
+                        bad += 1
         if bad:
             print("VIOLATION property=%s replay=%s" % (prop, path))
             return 1
